@@ -136,7 +136,9 @@ fn supervisor(args: &Args) -> i32 {
             Err(e) => die(&format!("wait failed: {}", e)),
         }
     };
-    let code = if let Some(c) = status.code() {
+    let code = if status.code() == Some(3) {
+        stalled(args, &path)
+    } else if let Some(c) = status.code() {
         c
     } else {
         // died by signal: look at what was in flight
@@ -239,6 +241,71 @@ fn crashed(args: &Args, path: &str, sig: i32) -> i32 {
     code
 }
 
+/// The worker reported that no case finished for a long time. Re-run each in-flight case in
+/// a fresh process with a 60 s budget; one that again does not return is non-termination.
+fn stalled(args: &Args, path: &str) -> i32 {
+    let data = std::fs::read(path).unwrap_or_default();
+    let exe = std::env::current_exe().unwrap();
+    let dir = format!("{}/replays/found", vlib::verif_dir());
+    let _ = std::fs::create_dir_all(&dir);
+    let mut code = 2;
+    let mut any = false;
+    // re-run every in-flight case in its own fresh process, all at once, 30 s budget
+    let mut children = vec![];
+    for s in 0..SLOTS {
+        let slot = &data[s * SLOT..(s + 1) * SLOT];
+        if slot[6] != 1 {
+            continue;
+        }
+        let len = u64::from_le_bytes(slot[16..24].try_into().unwrap()) as usize;
+        let n = len.min(SLOT - real::SLOT_HDR);
+        let tmp = format!("{}/target/inflight/{}-{}-stall{}.bin", vlib::verif_dir(), args.id, std::process::id(), s);
+        std::fs::write(&tmp, &slot[..real::SLOT_HDR + n]).unwrap();
+        if let Ok(c) = Command::new(&exe).arg(&args.id).arg("--replay-slot").arg(&tmp).stdout(Stdio::null()).stderr(Stdio::null()).spawn() {
+            children.push((s, n, tmp, c, false));
+        }
+    }
+    let t0 = Instant::now();
+    while t0.elapsed() < Duration::from_secs(30) && children.iter().any(|c| !c.4) {
+        for c in children.iter_mut() {
+            if !c.4 {
+                if let Ok(Some(_)) = c.3.try_wait() {
+                    c.4 = true;
+                }
+            }
+        }
+        std::thread::sleep(Duration::from_millis(100));
+    }
+    let mut reported = 0;
+    for (s, n, tmp, mut child, done) in children {
+        if !done {
+            let _ = child.kill();
+            let _ = child.wait();
+            any = true;
+            if reported < 2 {
+                reported += 1;
+                let slot = &data[s * SLOT..(s + 1) * SLOT];
+                let rec = slot_to_rec(&slot[..real::SLOT_HDR + n]);
+                let file = format!("{}/{}-hang-{}-{}.json", dir, args.id, std::process::id(), s);
+                std::fs::write(&file, vlib::engine::replay_json(&args.id, &format!("{}/non-termination", args.id), "the call did not return within 30 s in a fresh process (4-5 orders of magnitude above the normal cost)", &rec)).unwrap();
+                if args.id == "C01" {
+                    println!("VIOLATION property={} replay={}", args.id, file);
+                    println!("  signature: C01/non-termination");
+                    println!("  input: {}", vlib::engine::show_bytes(&rec.buf, 120));
+                    code = 1;
+                } else {
+                    println!("INCONCLUSIVE property={} a call does not terminate (case saved in {}); termination is C01's subject", args.id, file);
+                }
+            }
+        }
+        let _ = std::fs::remove_file(&tmp);
+    }
+    if !any {
+        println!("INCONCLUSIVE property={} the worker stalled but no in-flight case reproduced it within 60 s", args.id);
+    }
+    code
+}
+
 fn slot_to_rec(slot: &[u8]) -> CaseRec {
     let cap = u64::from_le_bytes(slot[8..16].try_into().unwrap()) as usize;
     let mut rec = CaseRec::new("crash", real::Entry::from_u8(slot[0]), slot[1], cap, slot[real::SLOT_HDR..].to_vec());
@@ -332,7 +399,30 @@ fn worker(prop: &props::PropDef, args: &Args) -> i32 {
             default_hook(info);
         }
     }));
+    let finished = std::sync::Arc::new(std::sync::atomic::AtomicBool::new(false));
+    if matches!(prop.id, "C01" | "C20") {
+        // stall monitor: no case finishing anywhere for STALL seconds = a call does not return
+        let fin = finished.clone();
+        let stall = vlib::engine::env_u64("VERIF_STALL_S", 15);
+        std::thread::spawn(move || {
+            let mut last = (vlib::engine::PROGRESS.load(std::sync::atomic::Ordering::Relaxed), Instant::now());
+            loop {
+                std::thread::sleep(Duration::from_millis(500));
+                if fin.load(std::sync::atomic::Ordering::Relaxed) {
+                    return;
+                }
+                let now = vlib::engine::PROGRESS.load(std::sync::atomic::Ordering::Relaxed);
+                if now != last.0 {
+                    last = (now, Instant::now());
+                } else if last.1.elapsed() > Duration::from_secs(stall) {
+                    eprintln!("vcheck: no case finished for {} s: a call does not return", stall);
+                    std::process::exit(3);
+                }
+            }
+        });
+    }
     (prop.run)(&r);
+    finished.store(true, std::sync::atomic::Ordering::Relaxed);
     let _ = std::panic::take_hook();
 
     let check = |ctx: &mut real::Ctx, l: &mut vlib::engine::Local, rec: &CaseRec| (prop.check)(&r, ctx, l, rec);
